@@ -42,8 +42,16 @@ def noop_guards(ctx, p, fn):
                     l, r = c[2], c[3]
                     if show(l) == "beta" and r[0] == "c" and float(r[1]) == 0.0 and ((c[1] == "Gt" and pos) or (c[1] == "Le" and not pos)):
                         g_beta = True
-                    if l[0] == "len" and show(l[1]) == "self" and r[0] == "c" and ((c[1] == "Gt" and pos and r[1] >= 2) or (c[1] == "Ge" and pos and r[1] >= 3) or (c[1] == "Le" and not pos and r[1] >= 2) or (c[1] == "Lt" and not pos and r[1] >= 3)):
-                        g_len = True
+                    # `len cmp k`, or the same on the order m = len - 1 (`len.saturating_sub(1) cmp k`)
+                    off = 0
+                    if l[0] == "call" and l[1].endswith("saturating_sub") and l[2][1][0] == "c":
+                        l, off = l[2][0], l[2][1][1]
+                    elif l[0] == "bin" and l[1] == "Sub" and l[3][0] == "c":
+                        l, off = l[2], l[3][1]
+                    if l[0] == "len" and show(l[1]) == "self" and r[0] == "c":
+                        k = r[1] + off
+                        if (c[1] == "Gt" and pos and k >= 2) or (c[1] == "Ge" and pos and k >= 3) or (c[1] == "Le" and not pos and k >= 2) or (c[1] == "Lt" and not pos and k >= 3):
+                            g_len = True
         if not (g_beta and g_len):
             bad += 1
             ctx.fail("C14-R1", fn, what, "`%s` is not under both `beta > 0` and `len > 2`: beta = 0 (or order 2) would change the coefficients" % what, cm.loc_of(span))
@@ -152,7 +160,17 @@ def run(ctx):
                 r = _range_loop_var(b, eb, idx)
                 want = old * (Poly.const(1) + beta)
                 seen["_bk_bb"] = bb
-                if r and r[0][0] == "c" and r[0][1] == 2 and r[1][0] == "len" and show(r[1][1]) == "self" and not r[2] and pol == want:
+                # the range end as a polynomial in len(self): `2..len`, `2..=len-1`, `2..m+1` with
+                # m = len.saturating_sub(1) (exact under the len > 2 guard of R1)
+                from ..loops import rewrite
+                end_ok = False
+                if r:
+                    desat = rewrite(r[1], lambda n: ("bin", "Sub", n[2][0], n[2][1]) if n[0] == "call" and n[1].endswith("saturating_sub") and len(n[2]) == 2 else None)
+                    ep = to_poly(desat, lambda e: ("LEN",) if e[0] == "len" and show(e[1]) == "self" else None)
+                    if r[2]:
+                        ep = ep + Poly.const(1)
+                    end_ok = ep == Poly.atom(("LEN",))
+                if r and r[0][0] == "c" and r[0][1] == 2 and end_ok and pol == want:
                     seen["bk"] = True
                     ctx.ok("C14-R2", "b_k <- (1+beta)*b_k for k in 2..len", cm.loc_of(st["span"]))
                 else:
